@@ -7,6 +7,9 @@ run(ctx): PRNG geometry pairs x data layouts x masks -> driver impl/c05.py once 
       source pixel within the radius or the fill value; equals kd_tree.resample_nearest wherever the nearest source is
       unique; identical across chunk sizes and across arbitrary (ragged, 1-element) target chunkings; dims, sizes of
       non-geo dims, dtype, attrs preserved;
+  (1b) histories: ONE resampler instance reused for 2-4 successive calls with different masks / data carrying the same
+      explicit DataArray name, and several lazy results sharing target and radius evaluated in ONE dask.compute: every
+      result (stand-alone and joint) must be the numpy result for its own mask/source (purity of the pipeline);
   (2) correspondence with Model/Blockwise.v inside Coq: query_no_distance on one block, the blockwise assembly for the
       implementation's own chunk tuples (from the per-pixel kd-tree answers of one unchunked query), the _my_index gather,
       the numpy pipeline, and the dimension bookkeeping.
@@ -498,6 +501,127 @@ def enc(dt, v):
     return struct.unpack(">q", struct.pack(">d", float(v)))[0]
 
 
+
+# ------------------------------------------------------------------------------------------ histories / joint evaluation
+def gen_history(r, hid):
+    """One resampler instance reused for several calls with different masks / data carrying the same explicit
+    DataArray name ('masks'), or several sources sharing target and radius ('sources'); small."""
+    kind = r.choice(["masks", "masks", "sources"])
+    region = r.choice(["europe", "antimeridian", "npole", "equator0"])
+    centre = {"europe": (10.0, 50.0), "antimeridian": (179.9, r.uniform(-40, 40)), "npole": (r.uniform(-180, 180), 88.0),
+              "equator0": (0.0, 0.0)}[region]
+    polar = region == "npole"
+    half = 3e5
+    sh, sw = r.randint(3, 6), r.randint(3, 7)
+    th, tw = r.randint(2, 5), r.randint(2, 6)
+    S = sh * sw
+    spacing = 2 * half / math.sqrt(S)
+    radius = spacing * r.choice([2.5, 4.0])
+    src_area = r.random() < 0.4
+    sources = []
+    nsrc = 1 if kind == "masks" else r.randint(2, 3)
+    for k in range(nsrc):
+        if src_area and kind == "masks":
+            sources.append(area_spec(r, centre, half, sh, sw))
+        else:
+            sp = swath_spec(r, (wrap(centre[0] + 0.3 * k), centre[1]), half, [sh, sw], ["y", "x"], polar)
+            sp["dtype"] = "float64"
+            sources.append(sp)
+    if r.random() < 0.6:
+        tgt = area_spec(r, centre, half * 0.8, th, tw)
+    else:
+        tgt = swath_spec(r, centre, half * 0.8, [th, tw], ["y", "x"], polar)
+        tgt["dtype"] = "float64"
+    name = r.choice(["band", "band", None])
+    steps = []
+    for k in range(r.randint(2, 4) if kind == "masks" else nsrc):
+        vals = [float(1000 * k + i) + 0.5 for i in range(S)]
+        mode = r.choice(["explicit", "on"]) if kind == "masks" else r.choice(["explicit", "off"])
+        mask = None
+        if mode != "off":
+            mask = [1 if r.random() < 0.4 else 0 for _ in range(S)]
+            if kind == "masks" and k == 0 and r.random() < 0.5:
+                mask = [0] * S
+        if mode == "on":
+            vals = [NAN if m else v for v, m in zip(vals, mask)]
+        steps.append({"src": 0 if kind == "masks" else k, "values": vals, "mask": mask, "mode": mode, "name": name,
+                      "chunks": chunk_tuple(r, [sh, sw], 12)})
+    return {"id": hid, "kind": kind, "region": region, "sources": sources, "tgt": tgt, "radius": radius, "fill": "nan",
+            "dims": ["y", "x"], "steps": steps, "t_shape": [th, tw], "s_shape": [sh, sw], "named": name is not None}
+
+
+def judge_history(ctx, h, per_cs, coq):
+    th, tw = h["t_shape"]
+    S = h["s_shape"][0] * h["s_shape"][1]
+    meta = {"t_shape": [th, tw], "lead": [], "trail": [], "S": S}
+    fails = []
+    for cs, o in sorted(per_cs.items()):
+        if "fatal" in o:
+            fails.append(("C05.driver", "history %d: driver failed: %s" % (h["id"], o["fatal"])))
+            continue
+        for k, (st, so) in enumerate(zip(h["steps"], o["steps"])):
+            obs = {"slon": so["slon"], "slat": so["slat"], "tlon": o["tlon"], "tlat": o["tlat"]}
+            truth = Truth(obs, st["mask"], float(h["radius"]), False)
+            case = {"data": {"dtype": "float64", "dims": h["dims"], "shape": h["s_shape"], "values": st["values"]}, "fill": h["fill"],
+                    "attrs": {"step": k}}
+            ref = so.get("ref", {})
+            for which in ("legacy", "future"):
+                w = so[which]
+                rname = "XArrayResamplerNN" if which == "legacy" else "KDTreeNearestXarrayResampler"
+                label = "%s, PYTROLL_CHUNK_SIZE=%d, call %d of %d on one instance (%s, DataArray name %r, mask mode %s)" % (
+                    rname, cs, k + 1, len(h["steps"]), h["kind"], st["name"], st["mode"])
+                if "error" in w:
+                    fails.append(("C05.%s.history.error" % which, "%s raises %s: %s" % (label, w["error"], w["msg"])))
+                    continue
+                if "joint_error" in w:
+                    fails.append(("C05.%s.joint_compute" % which, "%s: dask.compute of all lazy results together raises %s" % (label, w["joint_error"])))
+                    continue
+                alone = w["alone"]
+                tmp = []
+                ok = judge_result("x", case, meta, alone, truth, tmp, label)
+                if ok and "values" in ref:
+                    for t in range(th * tw):
+                        if unique_nearest(truth, t) and not veq(alone["values"][t], ref["values"][t]):
+                            tmp.append(("x", "%s: target %d = %r, numpy resample_nearest on the unmasked pixels gives %r" % (
+                                label, t, alone["values"][t], ref["values"][t])))
+                            break
+                if which == "legacy":
+                    judge_index("x", w["ia_alone"], w["vii"], truth, st["mask"], tmp, label)
+                alone_bad = bool(tmp)
+                if tmp:
+                    fails.append(("C05.%s.history.reuse" % which, tmp[0][1]))
+                # joint evaluation of all lazy results of the history: must equal the stand-alone computation
+                jres = dict(alone)
+                jres["values"] = w["joint"]
+                tmp = []
+                ok = judge_result("x", case, meta, jres, truth, tmp, label + " [dask.compute of all results together]")
+                if not all(veq(a, b) for a, b in zip(w["joint"], alone["values"])) and not tmp:
+                    diff = [t for t in range(th * tw) if not veq(w["joint"][t], alone["values"][t])]
+                    if any(unique_nearest(truth, t) for t in diff):
+                        tmp.append(("x", "%s: computed together with the other results the values differ from the stand-alone computation at targets %s" % (label, diff[:5])))
+                if which == "legacy" and not tmp:
+                    judge_index("x", w["ia_joint"], w["vii"], truth, st["mask"], tmp, label + " [joint index array]")
+                same_as_alone = all(veq(a, b) for a, b in zip(w["joint"], alone["values"])) and (which != "legacy" or w["ia_joint"] == w["ia_alone"])
+                if tmp and not (alone_bad and same_as_alone):     # a wrong stand-alone result is attributed to history.reuse only
+                    fails.append(("C05.%s.joint_compute" % which, tmp[0][1]))
+                nval = sum(1 for v, f in zip(alone["values"], [truth.must_fill[t] for t in range(th * tw)]) if not f)
+                ctx.case(("hist", h["id"], cs, which, k), nontrivial=nval > 0 and (st["mask"] is not None or h["kind"] == "sources"),
+                         sample={"history": h["id"], "kind": h["kind"], "resampler": which, "call": k + 1, "calls": len(h["steps"]),
+                                 "name": st["name"], "mask_mode": st["mode"], "masked": sum(st["mask"] or []), "targets_with_value": nval})
+                ctx.count("history_%s_%s" % (h["kind"], which))
+                if which == "legacy" and "oracle_q" in w:
+                    # the jointly computed index array must be the model's assembly of THIS call's own kd-tree answers
+                    coq.asm.append(("(%d, %s, %s, %s, %s, %s)" % (w["n"], zl(w["ia_chunks"][0]), zl(w["ia_chunks"][1]), bl(w["voi"]),
+                                                                 zl(w["oracle_q"]), zl(w["ia_joint"])),
+                                    "history %d cs %d call %d joint index array" % (h["id"], cs, k + 1)))
+    seen = set()
+    for key, what in fails:
+        if key in seen:
+            continue
+        seen.add(key)
+        ctx.add_failure(key, "history %d [%s]: %s" % (h["id"], h["kind"], what), {"history": h, "chunk_sizes": sorted(per_cs)})
+
+
 # ------------------------------------------------------------------------------------------ Coq text
 def mark(t):
     """long list literals are shared between the cases of one file through a Definition (see CoqCases.evaluate)"""
@@ -523,7 +647,9 @@ def run(ctx):
                 "((y,x), (bands,y,x), (y,x,bands), leading+trailing dims) x dtypes x fills x masks x ragged/1-element chunk tuples on "
                 "coordinates, data, mask and target, each run under PYTROLL_CHUNK_SIZE in {1,2,3,7,4096} (cost-capped for small chunk "
                 "sizes); non-trivial = at least one target pixel receives a source value AND more than one block is assembled or "
-                "a mask / extra dim / invalid pixel is present; distinct = distinct (case, chunk size, resampler, chunking)")
+                "a mask / extra dim / invalid pixel is present; distinct = distinct (case, chunk size, resampler, chunking); plus "
+                "resampler-reuse histories (one instance, 2-4 calls, differing masks / NaN patterns, same DataArray name) and joint "
+                "dask.compute of lazy results sharing target and radius but differing in mask or source")
     ncase = ctx.n(32, 300)
     sizes = [(30, 24), (60, 40), (120, 80), (400, 300)]
     cases, metas = [], {}
@@ -540,6 +666,8 @@ def run(ctx):
         cases.append(c)
         metas[cid] = m
     budget = ctx.n(1200, 6000)
+    histories = [gen_history(r, hid) for hid in range(ctx.n(8, 80))]
+    hist_cs = [4096, 3]
     per_cs = {}
     for cs in CHUNK_SIZES:
         sel = []
@@ -557,7 +685,8 @@ def run(ctx):
 
     def call(cs):
         t0 = time.time()
-        o = ctx.impl("c05", {"cases": per_cs[cs]}, timeout=ctx.n(900, 3000), extra_env={"PYTROLL_CHUNK_SIZE": str(cs)})
+        o = ctx.impl("c05", {"cases": per_cs[cs], "histories": histories if cs in hist_cs else []}, timeout=ctx.n(900, 3000),
+                     extra_env={"PYTROLL_CHUNK_SIZE": str(cs)})
         ws = sorted((c.get("wall", 0), c["id"]) for c in o["cases"])
         timing[cs] = (len(per_cs[cs]), round(time.time() - t0, 1), "sum %.1f" % sum(w for w, _ in ws), "slowest %s" % (ws[-2:],))
         return o
@@ -576,6 +705,13 @@ def run(ctx):
     coq = CoqCases()
     for cid in sorted(by_case):
         judge_case(ctx, case_by_id[cid], metas[cid], by_case[cid], coq)
+    hist_by_id = {}
+    for cs in hist_cs:
+        for o in obs[cs].get("histories", []):
+            hist_by_id.setdefault(o["id"], {})[cs] = o
+    for h in histories:
+        if h["id"] in hist_by_id:
+            judge_history(ctx, h, hist_by_id[h["id"]], coq)
     t_judge = time.time() - ctx.t0
     coq.evaluate(ctx)
     sys.stderr.write("  timing C05: build+implementation done at %.1fs (driver (cases, s) per PYTROLL_CHUNK_SIZE: %s), oracle at %.1fs, "
@@ -584,6 +720,16 @@ def run(ctx):
 
 def replay(ctx, data):
     """Re-run one recorded failing case against the current tree; True iff it still fails."""
+    if "history" in data["case"]:
+        h = data["case"]["history"]
+        per = {}
+        for cs in data["case"].get("chunk_sizes") or [4096]:
+            o = ctx.impl("c05", {"cases": [], "histories": [h]}, extra_env={"PYTROLL_CHUNK_SIZE": str(cs)})
+            per[cs] = o["histories"][0]
+        coq = CoqCases()
+        judge_history(ctx, h, per, coq)
+        coq.evaluate(ctx)
+        return bool(ctx.failures or ctx.broken)
     case = data["case"]["case"]
     meta = data["case"]["meta"]
     cs_list = data["case"].get("chunk_sizes") or CHUNK_SIZES
